@@ -50,6 +50,11 @@ def extra_inputs(pname, info, q, rng):
         ex['h'] = rng.standard_normal(q.nphi)
         ex['hs'] = ex['h']
         ex['hi'] = float(ex['h'][0])
+    if fn == 'solve_sigma_equation':
+        x = np.array(q.sigma, dtype=float, copy=True)
+        x[0] = q.iota
+        ex['newton_xs'] = x
+        ex['newton_xi'] = float(q.iota)
     if fn == 'calculate_r2':
         ex['solve1_0'] = q.X20
         ex['solve1_1'] = q.Y20
